@@ -161,11 +161,14 @@ func checkPair(b *gen.Binding, v *ref.Vals, newSeq uint32, c any) *vk.Violation 
 				viol = vk.Violf(id+"/dispatch-unsupported", c, "%s: the package encodes this PDU (command %#x) but its dispatcher answers 'unsupported'", id, v.Cmd)
 				return
 			}
-			// the type's own decoder accepts this image: the dispatcher has no reason to refuse it
+			// the image was produced by the package's own encoder from a well-formed assignment: the dispatcher
+			// has to map it back to its type (whether its own switch or the type's decoder is what refuses it)
+			key := id + "/dispatch-refuses-own-image"
 			if own := b.New(); own.IDecode(img) == nil {
-				viol = vk.Violf(id+"/dispatch-refuses-decodable-image", c, "%s: the dispatcher refuses an image of %d octets that the package produced and %s.IDecode accepts: %v", id, len(img), id, derr)
+				key = id + "/dispatch-refuses-decodable-image"
 			}
-			return // otherwise: decode errors on well-formed images are C01's business
+			viol = vk.Violf(key, c, "%s: the dispatcher refuses an image of %d octets that the package itself produced: %v", id, len(img), derr)
+			return
 		}
 		if typeName(d) != typeName(p) {
 			viol = vk.Violf(id+"/dispatch-type", c, "%s: dispatcher returned %s", id, typeName(d))
@@ -204,7 +207,14 @@ func checkPair(b *gen.Binding, v *ref.Vals, newSeq uint32, c any) *vk.Violation 
 type IDCase struct {
 	Proto string `json:"proto"`
 	Cmd   uint32 `json:"cmd"`
+	// Len: image size (0 = 700 octets; otherwise at least the header). Word: the 32-bit word that follows the
+	// command id (SMPP: command_status, the others: first sequence word). What a command id means must not
+	// depend on either.
+	Len  int    `json:"len,omitempty"`
+	Word uint32 `json:"word_after_cmd,omitempty"`
 }
+
+var hdrLen = map[string]int{"smpp34": 16, "cmpp20": 12, "cmpp30": 12, "sgip12": 20, "smgp30": 12}
 
 // known: command ids (per protocol) for which the package has a PDU type.
 func known(proto string) map[uint32]*gen.Binding {
@@ -221,9 +231,17 @@ func known(proto string) map[uint32]*gen.Binding {
 }
 
 func checkID(c IDCase) *vk.Violation {
-	img := make([]byte, 700)
+	n := 700
+	if c.Len > 0 {
+		n = c.Len
+		if n < hdrLen[c.Proto] {
+			n = hdrLen[c.Proto]
+		}
+	}
+	img := make([]byte, n)
 	binary.BigEndian.PutUint32(img[0:], uint32(len(img)))
 	binary.BigEndian.PutUint32(img[4:], c.Cmd)
+	binary.BigEndian.PutUint32(img[8:], c.Word)
 	var d sms.PDU
 	var err error
 	if pn := vk.Guarded("id", c.Proto+"/hang", func() any { return c }, func() { d, err = dispatchers[c.Proto](img) }); pn != "" {
@@ -340,7 +358,19 @@ func TestDispatcherIDs(t *testing.T) {
 				seen[id] = true
 				rec.Eval()
 				rec.NonTrivialConstructed(1)
-				rec.Report(t, "id", checkID(IDCase{proto, id}))
+				rec.Report(t, "id", checkID(IDCase{Proto: proto, Cmd: id}))
+				// the same id in a header-only frame and with the status / sequence word that follows it set to the
+				// values peers really send (SMPP: ESME_RINVMSGLEN 1, ESME_RINVCMDID 3, ESME_RSYSERR 8, ESME_RTHROTTLED 0x58)
+				for _, w := range []uint32{0, 1, 3, 8, 0x58, 0xff, 0xffffffff} {
+					for _, l := range []int{hdrLen[proto], hdrLen[proto] + 1, 0} {
+						if w == 0 && l == 0 {
+							continue
+						}
+						rec.Eval()
+						rec.NonTrivialConstructed(1)
+						rec.Report(t, "id", checkID(IDCase{Proto: proto, Cmd: id, Len: l, Word: w}))
+					}
+				}
 			}
 		}
 		rec.Exhaustive("every defined command id, every id 0..0x20 with and without the response bit and every single-bit flip of every supported id, all five dispatchers")
@@ -350,8 +380,13 @@ func TestDispatcherIDs(t *testing.T) {
 		id := rapid.OneOf(rapid.Uint32(), rapid.Uint32Range(0, 0x200), rapid.Uint32Range(0x80000000, 0x80000200)).Draw(t, "id")
 		rec.Eval()
 		rec.NonTrivial(proto, id)
-		rec.Sample("id", IDCase{proto, id})
-		rec.Report(t, "id", checkID(IDCase{proto, id}))
+		ic := IDCase{Proto: proto, Cmd: id}
+		if rapid.Bool().Draw(t, "shape") {
+			ic.Len = rapid.SampledFrom([]int{12, 13, 16, 17, 20, 21, 24, 29, 64}).Draw(t, "len")
+			ic.Word = rapid.OneOf(rapid.Uint32Range(0, 0x110), rapid.Uint32()).Draw(t, "word")
+		}
+		rec.Sample("id", ic)
+		rec.Report(t, "id", checkID(ic))
 	})
 }
 
